@@ -268,7 +268,19 @@ pub fn generate_tools(sink: &mut Sink, seed: u64, thorough: bool) {
             let (x, xs) = f32_text(&mut rng);
             let (y, ys) = f32_text(&mut rng);
             let (z, zs) = f32_text(&mut rng);
-            let c: [u8; 3] = if case == 2 { [i as u8, (255 - i) as u8, (i * 7) as u8] } else { [rng.next() as u8, rng.next() as u8, rng.next() as u8] };
+            // runs of equal colours, black and white (also in front), next to random ones
+            let c: [u8; 3] = if case == 2 {
+                [i as u8, (255 - i) as u8, (i * 7) as u8]
+            } else if case % 3 == 1 && i < 3 + case {
+                [0, 0, 0]
+            } else {
+                match rng.below(8) {
+                    0 | 1 if !expect.is_empty() => expect[expect.len() - 1].1,
+                    2 => [0, 0, 0],
+                    3 => [255, 255, 255],
+                    _ => [rng.next() as u8, rng.next() as u8, rng.next() as u8],
+                }
+            };
             text.push_str(&format!("{xs} {ys} {zs} {} {} {}", c[0], c[1], c[2]));
             if rng.chance(1, 6) {
                 text.push_str(" 17 extra");
